@@ -75,20 +75,35 @@ def run(rep, rng, tier):
         # --- array variant
         cum = np.cumsum(a ** 2)
         if not fragile_sig(cum, lo, hi):
-            r_se = guarded(eqsig.im.calc_sig_dur_vals, a.copy(), dt, start=lo, end=hi, se=True)
-            r_d = guarded(eqsig.im.calc_sig_dur_vals, a.copy(), dt, start=lo, end=hi, se=False)
+            r_se = core.guarded_pure(eqsig.im.calc_sig_dur_vals, a.copy(), dt, start=lo, end=hi, se=True)
+            r_d = core.guarded_pure(eqsig.im.calc_sig_dur_vals, a.copy(), dt, start=lo, end=hi, se=False)
             emit(2, 'calc_sig_dur_vals', dt, lo, hi, 0, a, r_se, r_d, tol,
                  {'motion': list(a), 'dt': dt, 'start': lo, 'end': hi}, bool(np.any(a != 0)))
         else:
             fragile += 1
         # --- object variant with default / custom measure
         name, arg, fn = measures[k % len(measures)]
-        asig = eqsig.AccSignal(a.copy(), dt)
+        hist = ''
+        if k % 3 == 0:
+            # the object first holds ANOTHER record and is queried, then the record is replaced through the public API
+            other = np.concatenate([a[len(a) // 2:], a[:len(a) // 2]]) * 2.0 + 1.0
+            asig = eqsig.AccSignal(other, dt)
+            _ = guarded(eqsig.im.calc_sig_dur, asig, start=lo, end=hi, im=arg, se=True)
+            _ = guarded(eqsig.im.calc_brac_dur, asig, 0.0, se=True)
+            if k % 2 == 0:
+                asig.reset_values(a.copy())
+                hist = '[query; reset_values; query]'
+            else:
+                asig.add_series(a - other)
+                hist = '[query; add_series; query]'
+            a = np.array(asig.values, dtype=float)
+        else:
+            asig = eqsig.AccSignal(a.copy(), dt)
         cumv = np.array(fn(asig), dtype=float)
         if not fragile_sig(cumv, lo, hi):
-            r_se = guarded(eqsig.im.calc_sig_dur, asig, start=lo, end=hi, im=arg, se=True)
-            r_d = guarded(eqsig.im.calc_sig_dur, asig, start=lo, end=hi, im=arg, se=False)
-            emit(0, 'calc_sig_dur[%s]' % name, dt, lo, hi, 0, cumv, r_se, r_d, tol,
+            r_se = core.guarded_pure(eqsig.im.calc_sig_dur, asig, start=lo, end=hi, im=arg, se=True)
+            r_d = core.guarded_pure(eqsig.im.calc_sig_dur, asig, start=lo, end=hi, im=arg, se=False)
+            emit(0, 'calc_sig_dur[%s]%s' % (name, hist), dt, lo, hi, 0, cumv, r_se, r_d, tol,
                  {'values': list(a), 'dt': dt, 'start': lo, 'end': hi, 'im': name}, bool(np.any(a != 0)))
         else:
             fragile += 1
@@ -96,9 +111,9 @@ def run(rep, rng, tier):
         mags = sorted(set(np.abs(a)))
         choices = [0.0, mags[-1], mags[-1] * 1.5, mags[len(mags) // 2], (mags[0] + mags[-1]) / 2, rng.choice(mags)]
         thr = rng.choice(choices)
-        r_se = guarded(eqsig.im.calc_brac_dur, asig, thr, se=True)
-        r_d = guarded(eqsig.im.calc_brac_dur, asig, thr, se=False)
-        emit(1, 'calc_brac_dur', dt, 0, 0, thr, a, r_se, r_d, tol, {'values': list(a), 'dt': dt, 'threshold': thr},
+        r_se = core.guarded_pure(eqsig.im.calc_brac_dur, asig, thr, se=True)
+        r_d = core.guarded_pure(eqsig.im.calc_brac_dur, asig, thr, se=False)
+        emit(1, 'calc_brac_dur' + hist, dt, 0, 0, thr, a, r_se, r_d, tol, {'values': list(a), 'dt': dt, 'threshold': thr},
              bool(np.any(a != 0)))
     rep.extra['fragile_skipped'] = fragile
     rep.correspond('model.K_C10', 'check_case', cases, describe='model_out %s')
